@@ -64,6 +64,12 @@ def run(ctx, out):
                 n_multi += 1
             queues = {"0622": [resv],
                       "0623": [commit_reply]}
+            if rng.random() < 0.4:
+                # the end-of-day job that follows the commit reports the DAY's totals in a status information of its own (as the
+                # recorded terminal trace does): the summary handed back is the partial reversal's, not the day's
+                day = dict(result_code=0, amount=rng.choice([958, 0, 10 ** 12 - 1]), trace_number=rng.choice([2, 424242]), date=rng.choice([103, 1231]),
+                           time=rng.choice([3, 235958]), terminal_id=rng.choice([4, 87654321]))
+                queues["0650"] = [[P.completion()], [P.intermediate(), P.status(**day), P.print_line("totals"), P.completion()]]
             calls = ["new", f"begin:{tok(token)}", f"commit:{tok(token)}:{final}"]
             if rng.random() < 0.3:
                 # the card is read first and reports its own pre-authorisation limit (tag 1F0B), below / at / above the configured
